@@ -264,7 +264,7 @@ def _targets_of(stmt_node):
     return out
 
 
-def must_flow(cfg, name, implies, good_value, entry_ok):
+def must_flow(cfg, name, implies, good_value, entry_ok, establishes=None):
     """Forward must-analysis: at which nodes is the need known to hold for
     `name` on every path?  Returns {node: bool} for the state *before* the node
     executes."""
@@ -281,6 +281,8 @@ def must_flow(cfg, name, implies, good_value, entry_ok):
                 if implies(norm_fact(a, t), name):
                     return True
             return inv
+        if establishes is not None and establishes(n):
+            return True
         for tgt, val, kind in _targets_of(n):
             for sub in ast.walk(tgt):
                 if dotted(sub) == name:
@@ -349,14 +351,45 @@ def _discharge(repo, A, plat, fi, expr, need, depth, visiting):
             return False
         return _discharge(repo, A, plat, fi, val, need, depth + 1, visiting)
 
-    IN = must_flow(cfg, name, implies, good_value, entry_ok=False)
+    def establishes(node):
+        """A call `helper(..., name, ...)` that can only return normally when
+        the need holds for that argument (the helper raises otherwise): the
+        helper's exit is dominated by a branch implying it for the parameter."""
+        if node.stmt is None or node.kind not in ("stmt",):
+            return False
+        from ..core.cfg import decompose_guard
+        from ..core.analysis import norm_fact
+        for c in calls_in(node.stmt):
+            for t in repo.resolve_call(c, fi, plat):
+                if t[0] != "func":
+                    continue
+                callee = t[1]
+                ps = [a.arg for a in callee.node.args.posonlyargs + callee.node.args.args]
+                if ps and ps[0] in ("self", "cls") and not (
+                        "staticmethod" in callee.decorators):
+                    ps = ps[1:]
+                elif ps and ps[0] in ("self", "cls"):
+                    pass
+                if "staticmethod" in callee.decorators and ps and ps[0] in ("self", "cls"):
+                    pass
+                for i, a in enumerate(c.args):
+                    if dotted(a) != name or i >= len(ps):
+                        continue
+                    ccfg = A.cfg(callee)
+                    for e, pol, _ in ccfg.guards(ccfg.exit):
+                        for at, tv in decompose_guard(e, pol):
+                            if implies(norm_fact(at, tv), ps[i]):
+                                return True
+        return False
+
+    IN = must_flow(cfg, name, implies, good_value, entry_ok=False, establishes=establishes)
     if all(IN.get(u, False) for u in uses):
         return True
     if name in ("self.pid", "self._pid"):
         return _class_invariant(repo, A, plat, fi, need, depth, visiting)
     params = [p.arg for p in fi.node.args.posonlyargs + fi.node.args.args
               + fi.node.args.kwonlyargs]
-    IN2 = must_flow(cfg, name, implies, good_value, entry_ok=True)
+    IN2 = must_flow(cfg, name, implies, good_value, entry_ok=True, establishes=establishes)
     entry_suffices = all(IN2.get(u, False) for u in uses)
     if name in params:
         if not entry_suffices:
@@ -670,7 +703,11 @@ def _is_own_pid(fi, e):
 
 
 def _allowed_rewrite(A, fi, st, name):
-    """`value = 0` under the fact `value is None`."""
+    """`value = 0` under the fact `value is None` (statement or conditional
+    expression form)."""
+    from ..core.astutil import none_to_default
+    if none_to_default(st, name, 0):
+        return True
     if isinstance(st, ast.Assign) and isinstance(st.value, ast.Constant) \
             and st.value.value == 0:
         cfg = A.cfg(fi)
@@ -730,31 +767,27 @@ def _r6_identity(ctx, repo, A):
              "true; is_running stores self != Process(self.pid); __eq__ compares "
              "_ident of both operands", floor=4)
     g = repo.func("psutil", "Process._raise_if_pid_reused")
-    cfg = A.cfg(g)
-    raises = [n for n in cfg.nodes if n.kind == "raise"
-              and isinstance(n.stmt.exc, ast.Call)
-              and dotted(n.stmt.exc.func) == "NoSuchProcess"]
-    ok = False
-    why = "no `raise NoSuchProcess` in the guard"
-    for r in raises:
-        gs = cfg.guards(r)
-        if len(gs) != 1 or gs[0][1] is not True:
-            why = "raise is not under a single positive test"
-            continue
-        test = gs[0][0]
-        why = _guard_test_ok(test)
-        if why is True:
-            ok = True
-            # pid argument of the exception
-            a0 = r.stmt.exc.args[0] if r.stmt.exc.args else None
-            if dotted(a0) not in ("self.pid", "self._pid"):
-                ok = False
-                why = "NoSuchProcess does not carry self.pid"
-    if ok:
-        ctx.ok("C01.R6", "guard-raises", sample={"test": norm_stmt(raises[0].stmt)})
-    else:
+    verdict = guard_model(repo)
+    if verdict is None:
         ctx.fail("C01.R6", "guard-raises", g.file, g.node.lineno, g.qual,
-                 f"_raise_if_pid_reused does not raise for every recycled PID: {why}")
+                 "_raise_if_pid_reused uses constructs outside the evaluated subset: its "
+                 "decision cannot be established")
+    else:
+        probs = [w for _, w in verdict if w]
+        # the exception names the object's pid
+        bad_pid = [r for r in ast.walk(g.node) if isinstance(r, ast.Raise)
+                   and isinstance(r.exc, ast.Call) and dotted(r.exc.func) == "NoSuchProcess"
+                   and not (r.exc.args and dotted(r.exc.args[0]) in ("self.pid", "self._pid"))]
+        if bad_pid:
+            probs.append("NoSuchProcess does not carry self.pid")
+        if probs:
+            ctx.fail("C01.R6", "guard-raises", g.file, g.node.lineno, g.qual,
+                     "_raise_if_pid_reused does not raise for every recycled PID: "
+                     + "; ".join(sorted(set(probs))[:3]))
+        else:
+            ctx.ok("C01.R6", "guard-raises",
+                   sample=f"{len(verdict)} (flags x is_running outcome) scenarios: raises "
+                          f"NoSuchProcess iff the PID is recycled or the process is gone")
     # is_running
     ir = repo.func("psutil", "Process.is_running")
     stores = [st for st in ast.walk(ir.node) if isinstance(st, ast.Assign)
@@ -877,43 +910,58 @@ def uncached_probes(repo):
     return out
 
 
-def guard_cover(repo, A):
-    """[(flag, leaks)]: for every instance flag that lets is_running() answer
-    without comparing identities, can _raise_if_pid_reused() return normally
-    although that flag is set?  (shared with C05: the tree walk relies on the
-    same guard)"""
+def guard_model(repo):
+    """Evaluate Process._raise_if_pid_reused() for every combination of the two
+    sticky flags and every outcome of is_running() (model: answers False at once
+    when a flag is set; otherwise True, or False after setting _pid_reused
+    [recycled], or False after setting _gone [vanished]).  Specification: raise
+    NoSuchProcess exactly when, afterwards, the PID is known recycled or the
+    process known gone; when no flag was set on entry, is_running() must have
+    been consulted.  Returns [(scenario, problem or None)] or None if the body is
+    outside the evaluated subset."""
+    from ..core import boolmodel as BM
     g = repo.func("psutil", "Process._raise_if_pid_reused")
-    ir = repo.func("psutil", "Process.is_running")
-    cfg = A.cfg(ir)
-    cmp_nodes = [n for n in cfg.nodes if n.kind == "stmt" and any(
-        dotted(c.func) in ("Process",) for c in calls_in(n.stmt))]
-    flags = set()
-    for n in cfg.nodes:
-        if n.kind != "return":
-            continue
-        if cfg.path_exists(cfg.entry, n, avoid=set(cmp_nodes)) or n in cmp_nodes:
-            for e, pol, _ in cfg.guards(n):
-                if pol is True:
-                    vals = e.values if isinstance(e, ast.BoolOp) and isinstance(e.op, ast.Or) \
-                        else [e]
-                    for v in vals:
-                        if dotted(v) and dotted(v).startswith("self."):
-                            flags.add(dotted(v))
-    gcfg = A.cfg(g)
+
+    def model(name, st):
+        if name == "self.is_running":
+            if st.get("self._gone") or st.get("self._pid_reused"):
+                return [(False, st)]
+            return [(True, st), (False, {**st, "self._pid_reused": True}),
+                    (False, {**st, "self._gone": True})]
+        return None
     out = []
-    for f in sorted(flags):
-        dead = set()
-        for b in gcfg.nodes:
-            if b.kind == "branch" and b.polarity in (True, False):
-                v = _eval3(b.expr, {f: True})
-                if v is not None and v != b.polarity:
-                    dead.add(b)
-        out.append((f, gcfg.exit in gcfg.reachable(gcfg.entry, avoid=dead)))
-    # the guard must also CONSULT is_running(): a flag that was never computed
-    # cannot protect anything
-    consults = any(isinstance(c.func, ast.Attribute) and c.func.attr == "is_running"
-                   for c in calls_in(g.node))
-    out.append(("<is_running consulted>", not consults))
+    for r0 in (False, True):
+        for g0 in (False, True):
+            res = BM.run(g.node, {"self._pid_reused": r0, "self._gone": g0}, model)
+            if res is None:
+                return None
+            for o in res:
+                final_bad = bool(o.state.get("self._pid_reused")) or bool(o.state.get("self._gone"))
+                sc = f"_pid_reused={r0},_gone={g0},calls={list(o.trace)}"
+                why = None
+                if final_bad and not (o.kind == "raise" and o.exc == "NoSuchProcess"):
+                    which = "_pid_reused" if o.state.get("self._pid_reused") else "_gone"
+                    why = (f"with {which} set ({'on entry' if (r0 or g0) else 'by is_running()'}) "
+                           f"the guard returns normally")
+                elif not final_bad and o.kind == "raise":
+                    why = "it raises although the process is the same and alive"
+                elif not (r0 or g0) and "self.is_running" not in o.trace:
+                    why = ("it never consults is_running(), which is what detects the "
+                           "recycling")
+                out.append((sc, why))
+    return out
+
+
+def guard_cover(repo, A):
+    """[(flag, leaks)] kept for C05: derived from guard_model()."""
+    v = guard_model(repo)
+    if v is None:
+        return [("<outside subset>", True)]
+    out = []
+    for flag in ("self._pid_reused", "self._gone"):
+        out.append((flag, any(w and flag.split(".")[1] in w and "returns normally" in w
+                              for _, w in v)))
+    out.append(("<is_running consulted>", any(w and "never consults" in w for _, w in v)))
     return out
 
 
